@@ -22,6 +22,9 @@ ND == <<100>>           \* "d"
 TS == <<115>>           \* "s"
 TD == <<97,123,115,118,125>>  \* "a{sv}"
 TR == <<40,105,105,41>>       \* "(ii)"
+T1 == <<40,115,41>>             \* "(s)"    structure with a single member: the outer parentheses are part of the type
+T2 == <<40,40,115,117,41,41>>   \* "((su))" (the signature "s" / "(su)" is a different type)
+TV == <<40,97,123,115,118,125,41>>  \* "(a{sv})"
 AN == <<97,46,98,46,67>>      \* annotation name "a.b.C"
 
 Texts == { <<>>,                             \* ""
@@ -40,7 +43,7 @@ FullArg == [name |-> AX, type |-> TS, direction |-> "in", annotations |-> <<>>]
 OutArg  == [name |-> AX, type |-> TD, direction |-> "out", annotations |-> <<>>]
 ArgVariants ==
   {[type |-> TS, annotations |-> <<>>] @@ nm @@ dr : nm \in OptN("name", {AX, <<>>}), dr \in OptN("direction", {"in", "out"})}
-  \cup {[name |-> AX, type |-> t, direction |-> "in", annotations |-> <<>>] : t \in {TD, TR}}
+  \cup {[name |-> AX, type |-> t, direction |-> "in", annotations |-> <<>>] : t \in {TD, TR, T1, T2, TV}}
 ArgLists == {<<>>} \cup {<<a>> : a \in ArgVariants} \cup {<<a, OutArg>> : a \in ArgVariants}
 
 Meth(n, args, anns) == [name |-> n, args |-> args, annotations |-> anns]
@@ -65,7 +68,7 @@ S2 == UNION {{
       } : t \in Texts}
 (* S3: properties *)
 S3 == {Named(NA, <<Iface(IA, <<>>, ps, <<>>, <<>>)>>, <<>>) :
-         ps \in {<<Prop(PP, t, acc, <<>>)>> : t \in {TS, TD, TR}, acc \in {"read", "write", "readwrite"}}
+         ps \in {<<Prop(PP, t, acc, <<>>)>> : t \in {TS, TD, TR, T1, T2, TV}, acc \in {"read", "write", "readwrite"}}
                 \cup {<<Prop(PP, TS, "read", <<>>), Prop(PQ, TD, "write", <<>>)>>}}
 (* S4: how many of each *)
 Take(s, n) == SubSeq(s, 1, n)
